@@ -17,8 +17,8 @@ class C09(Prop):
         "independently from the configured secret and the engine id in the message. non-trivial = at least 2 signed datagrams with different "
         "auth-field offsets or lengths; distinct = abstract trace + set of (offset, length) pairs"
     )
-    quick_runs = 1200
-    thorough_runs = 20000
+    quick_runs = 10000
+    thorough_runs = 150000
 
     def families(self, tier):
         return [("history", 1)]
